@@ -1256,10 +1256,10 @@ def jobs(tier):
                     'requires': ['scenario_end', 'generator_position_symbolic', 'reply', 'removed_reported_to_listeners',
                                  'result_reported_to_listeners']})
     # listeners of SearchRequestSentEvent; the request is removed while it is being announced
-    sj = [('TSDQD', ['sync'], 'listener', 0), ('TSRDQD', ['async', 'yield'], 'listener', 0), ('TSDQD', ['yield'], 'task', 0),
+    sj = [('TSDQD', ['sync'], 'listener', 0), ('TSRDQ', ['async', 'yield'], 'listener', 0), ('TSDQD', ['yield'], 'task', 0),
           ('TSDQD', ['yield', 'sync'], None, 0)]
     if not q:
-        sj += [('TSRDQ', ['yield'], 'task', 1), ('TUDQD', ['sync', 'yield'], 'listener', 0), ('ILDQD', ['yield'], 'task', 0),
+        sj += [('TSRDQ', ['yield'], 'task', 1), ('TSRDQD', ['async', 'yield'], 'listener', 0), ('TUDQD', ['sync', 'yield'], 'listener', 0), ('ILDQD', ['yield'], 'task', 0),
                ('TSDQD', ['yield', 'yield'], 'task', 0), ('TSRDQD', ['yield'], 'listener', 1), ('ILDQD', ['async'], 'listener', 1),
                ('TSRUDQ', ['yield', 'async'], None, 0)]
     for ops, ls, how, nth in sj:
